@@ -326,7 +326,7 @@ PROPS = {
                       lambda seed: fams("control", "calls", "scoping", "boundary", "sequences", "compose", "undeclared", "gc") + exh(3) + loops(3) + rnd(seed, 600),
                       k=True, kinds=("unsafe", "typing", "residue", "witness")),
     "C05": s_property("C05", "translation_validation",
-                      lambda seed: fams("boundary", "builtins") + [x for x in fams("operator_forms") if ":mixed:" in x[0] or ":same:" in x[0]],
+                      lambda seed: fams("boundary", "builtins", "calls") + [x for x in fams("operator_forms") if ":mixed:" in x[0] or ":same:" in x[0]],
                       lambda seed: fams("boundary", "builtins", "operator_forms", "sequences") + rnd(seed, 300), k=True, front_end=True,
                       extra_assume=["claimed for the BACK END and the LEXER (Kani harnesses per first character, DESIGN.md 5 C08); parsing as a function of arbitrary token sequences "
                                     "(truncations, termination of the parser loops) cannot be executed symbolically here (DESIGN.md 1) and is outside the claim; "
